@@ -1,4 +1,5 @@
 import MmtkModel.Model.Fwd
+import MmtkModel.Model.FwdTie
 import Mathlib.Tactic.SplitIfs
 /-!
 # C17 — Concurrent forwarding copies an object once and all tracers agree
@@ -422,5 +423,104 @@ example :
 winner can copy an object that the first winner is about to mark in place (the variant is written
 out here only as a schedule on the real model to show the model distinguishes the two points). -/
 example : (exec true false (init false) [(0,true),(0,true),(0,true),(0,true)]).pc 0 = .markPending := by decide
+
+
+/-! ## the tie: the executable verdict on real-thread races is a consequence of the theorems above -/
+
+/-- **C17 (tie)** Every quiescent reachable state — threads `0..n-1` (any `n ≥ 1`) have all returned,
+no other thread ever moved — has an outcome accepted by the executable predicate `outcomeOk` that the
+check evaluates on real-thread races: the tracers agree, at most one copy was made, the forwarding
+pointer is that copy and the bits read `FORWARDED` (or, Immix, nobody copied: the object is marked,
+the bits are released), and the object was queued exactly once (not at all if it was marked before). -/
+theorem outcome_sound (hcs : immix = false → m0 = false) (h : Reachable immix oneStep m0 s) (n : Nat)
+    (hn : 0 < n) (hfin : ∀ x, x < n → ∃ r, s.pc x = .done r) (hidle : ∀ x, n ≤ x → s.pc x = .start) :
+    outcomeOk immix m0 (outcomeOf n s) = true := by
+  have inv := reachable_inv hcs h
+  have hq : ∀ x, inCrit (s.pc x) = false := by
+    intro x
+    by_cases hx : x < n
+    · obtain ⟨r, hr⟩ := hfin x hx; rw [hr]; rfl
+    · rw [hidle x (by omega)]; rfl
+  have hb2 : s.sh.bits ≠ 2 := by
+    intro e; obtain ⟨x, hx⟩ := inv.owner e; rw [hq x] at hx; exact Bool.false_ne_true hx
+  obtain ⟨r0, hr0⟩ := hfin 0 hn
+  have hall : ∀ x, x < n → s.pc x = .done r0 := by
+    intro x hx
+    obtain ⟨r, hr⟩ := hfin x hx
+    have := (agreement hcs h x 0 r r0 hr hr0).1
+    rw [hr, this]
+  have hres : ∀ v, (outcomeOf n s).results.all (· == v) = true ↔ r0 = v := by
+    intro v
+    simp only [outcomeOf, List.all_eq_true, List.mem_map, List.mem_range]
+    constructor
+    · intro hh
+      have := hh r0 ⟨0, hn, by rw [hr0]⟩
+      simpa using this
+    · intro e y ⟨x, hx, hy⟩
+      rw [hall x hx] at hy
+      simp [← hy, e]
+  have l0 := inv.l 0
+  rw [hr0] at l0
+  simp only [L] at l0
+  rcases l0 with ⟨e, hm, hi⟩ | c
+  · -- nobody copied: marked in place
+    have hc := inv.g.marked_nocopy hm
+    have h3 : s.sh.bits ≠ 3 := by
+      intro e3; obtain ⟨c, hc', _⟩ := inv.g.forwarded e3; rw [hc] at hc'; cases hc'
+    have h0 : s.sh.bits = 0 := b0 inv.g.bits_vals hb2 h3
+    have hcl : (outcomeOf n s).copies = 0 := by simp [outcomeOf, hc]
+    have hqq : (if m0 = true then (outcomeOf n s).queue == [] else (outcomeOf n s).queue == [orig]) = true := by
+      cases hm0 : m0 with
+      | true =>
+        subst hm0
+        have := (already_marked_untouched hi h).2
+        simp [outcomeOf, this]
+      | false =>
+        have := enqueued_exactly_once hcs h hm0 hq 0 r0 hr0
+        simp [outcomeOf, this, e]
+    unfold outcomeOk
+    rw [hcl]
+    have hr := (hres orig).mpr e
+    simp only [Bool.and_eq_true]
+    refine ⟨⟨⟨⟨hi, ?_⟩, ?_⟩, hr⟩, hqq⟩
+    · simp [outcomeOf, hm]
+    · simp [outcomeOf, h0, NOT_TRIGGERED]
+  · -- exactly one copy
+    have hcl : (outcomeOf n s).copies = 1 := by simp [outcomeOf, c]
+    have hm0 : m0 = false := by
+      cases hm0 : m0 with
+      | false => rfl
+      | true =>
+        have := inv.g.marked_nocopy (inv.g.marked_mono hm0); rw [this] at c; cases c
+    have hm : s.sh.marked = false := by
+      cases hm : s.sh.marked with
+      | false => rfl
+      | true => have := inv.g.marked_nocopy hm; rw [this] at c; cases c
+    have h0 : s.sh.bits ≠ 0 := by
+      intro e; have := inv.g.idle_nocopy e; rw [this] at c; cases c
+    have h3 : s.sh.bits = 3 := b3 inv.g.bits_vals h0 hb2
+    obtain ⟨c', hc', hp, hq'⟩ := inv.g.forwarded h3
+    rw [c] at hc'; injection hc' with e _
+    unfold outcomeOk
+    rw [hcl]
+    have hr := (hres (outcomeOf n s).ptr).mpr (by simp [outcomeOf, hp, e])
+    simp only [Bool.and_eq_true]
+    refine ⟨⟨⟨⟨?_, ?_⟩, ?_⟩, hr⟩, ?_⟩
+    · simp [hm0]
+    · simp [outcomeOf, hm]
+    · simp [outcomeOf, h3, FORWARDED]
+    · simp [outcomeOf, hq', hp]
+
+/-- `outcomeOk` is not vacuous: it rejects a second copy, disagreeing tracers, a pointer that is not
+the copy, bits left at `BEING_FORWARDED`, and a double enqueue. -/
+example : outcomeOk false false { results := [4, 4, 4], copies := 1, queue := [4], bits := 3, ptr := 4, marked := false } = true ∧
+    outcomeOk false false { results := [4, 2, 4], copies := 1, queue := [4], bits := 3, ptr := 4, marked := false } = false ∧
+    outcomeOk false false { results := [4, 4], copies := 2, queue := [4], bits := 3, ptr := 4, marked := false } = false ∧
+    outcomeOk false false { results := [4, 4], copies := 1, queue := [4], bits := 3, ptr := 2, marked := false } = false ∧
+    outcomeOk false false { results := [4, 4], copies := 1, queue := [4], bits := 2, ptr := 4, marked := false } = false ∧
+    outcomeOk false false { results := [4, 4], copies := 1, queue := [4, 4], bits := 3, ptr := 4, marked := false } = false ∧
+    outcomeOk true false { results := [0, 0], copies := 0, queue := [0], bits := 0, ptr := 1, marked := true } = true ∧
+    outcomeOk true false { results := [0, 0], copies := 0, queue := [0], bits := 0, ptr := 1, marked := false } = false := by
+  decide
 
 end Mmtk.Fwd
